@@ -176,6 +176,17 @@ static void checktx_case(verif::Src& s, verif::Stats& st, bool force_bulk)
         o.script_len = s.range<size_t>(0, 40);
         r.out.push_back(o);
     }
+    // rare shape: thousands of individually in-range outputs whose 64-bit sum wraps past 2^64 (8784 * MAX_MONEY < 2^64 <= 8785 * MAX_MONEY):
+    // only a running-total check rejects it at the first output that pushes the total above MAX_MONEY
+    bool wrap = false;
+    if (s.chance(2) && s.chance(12)) {
+        wrap = true;
+        size_t many = s.pick<size_t>({8784, 8785, 8786, 9000, 17569});
+        r.out.clear();
+        for (size_t k = 0; k < many; ++k) r.out.push_back(RefOut{REF_MAX_MONEY, 0});
+        r.out.push_back(RefOut{s.pick<int64_t>({0, 1, 1000, REF_MAX_MONEY, 704109551616LL}), 0}); // 2^64 - 8784*MAX_MONEY = 1 153 709 551 616 region
+        near = true;
+    }
     size_t witness_bulk = 0;
     if (bulk && nin > 0) {
         size_t cur = ref_nowitness_size(r) - cs_len(r.in[0].script_len) - r.in[0].script_len;
@@ -198,12 +209,13 @@ static void checktx_case(verif::Src& s, verif::Stats& st, bool force_bulk)
     // shape: violated-rule set + coarse structure
     for (auto& v : viol) st.mix(v);
     st.mix(uint64_t(near)); st.mix(uint64_t(coinbase_shape)); st.mix(uint64_t(bulk)); st.mix(uint64_t(std::min<size_t>(nin, 3))); st.mix(uint64_t(std::min<size_t>(nout, 3)));
-    st.mix(uint64_t(witness_bulk != 0));
+    st.mix(uint64_t(witness_bulk != 0)); st.mix(uint64_t(wrap));
     st.nontrivial = viol.size() >= 2 || near;
     st.cls(viol.empty() ? "accepted" : "rejected:" + viol[0]);
     if (viol.size() >= 2) st.cls("multi-violation");
     if (near) st.cls("near-limit");
     if (bulk) st.cls("bulk-size-boundary");
+    if (wrap) st.cls("output-sum-wraps-64-bits");
     compare(r, m, st, "c03.reference");
 }
 
